@@ -11,6 +11,7 @@ import random
 import re
 import sys
 import threading
+import time
 
 from . import paths
 
@@ -167,10 +168,24 @@ class Sched:
         # PCT
         if self.strategy["kind"] == "pct":
             d = self.strategy.get("d", 2)
-            self.change_points = sorted(self.rng.randrange(1, max(2, est_steps)) for _ in range(d))
+            # the length of a run is not known in advance and varies over two orders of magnitude (a parse-only
+            # call ~1e3 line events, a run() ~1e4): half of the change points are uniform over the estimate, half
+            # log-uniform, so that short runs get change points inside them too
+            import math
+
+            def cp():
+                if self.rng.random() < 0.5:
+                    return self.rng.randrange(1, max(2, est_steps))
+                return max(1, int(math.exp(self.rng.uniform(math.log(5), math.log(max(6, est_steps))))))
+            self.change_points = sorted(cp() for _ in range(d))
             self.prio = {}
         self.locks = []
         self._rv = {"holder": None, "file": None, "ran": 0, "burst": 0}
+        # threads blocked in a *real* wait (a Future, Condition, Queue, join ... that the engine or a change to
+        # it introduced): the watchdog takes the baton away from such a thread, it re-enters when it wakes up
+        self._wd_lock = threading.Lock()
+        self._orphan_since = None
+        self.real_waits = 0
 
     # ------------------------------------------------------------ thread management
     def spawn(self, name, fn):
@@ -210,12 +225,96 @@ class Sched:
         first = self._pick_first()
         self.current = first
         self.threads[first]["evt"].set()
-        ok = self.main_evt.wait(timeout)
+        deadline = time.monotonic() + timeout
+        last_steps, stalled = -1, 0
+        ok = False
+        while True:
+            if self.main_evt.wait(0.25):
+                ok = True
+                break
+            if time.monotonic() > deadline:
+                break
+            if self.steps == last_steps:
+                stalled += 1
+                if stalled >= 6:          # no engine line executed for 1.5 s
+                    self._watchdog()
+            else:
+                last_steps, stalled = self.steps, 0
         if not ok:
             self.failure = self.failure or TimeoutError("scheduler wall-clock timeout")
         if self.failure is not None:
             self._abort_all()
         return {n: t["result"] for n, t in self.threads.items()}
+
+    _WAIT_FRAMES = {("threading.py", "wait"), ("threading.py", "acquire"), ("threading.py", "join"), ("threading.py", "_wait_for_tstate_lock"),
+                    ("queue.py", "get"), ("queue.py", "put"), ("_base.py", "result"), ("_base.py", "exception"), ("_base.py", "wait"),
+                    ("selectors.py", "select")}
+
+    def _in_real_wait(self, frame):
+        n = 0
+        while frame is not None and n < 8:
+            co = frame.f_code
+            if co.co_filename.endswith("sched.py") and "vtlsim" in co.co_filename:
+                return False          # parked by the scheduler itself
+            if (os.path.basename(co.co_filename), co.co_name) in self._WAIT_FRAMES:
+                return True
+            frame = frame.f_back
+            n += 1
+        return False
+
+    def _forced_to(self, origin):
+        if self.forced is not None and self._fi < len(self.forced):
+            ent = self.forced[self._fi]
+            if (ent[2] if len(ent) > 2 else "point") == origin and ent[0] == self.steps:
+                self._fi += 1
+                return ent[1]
+        return None
+
+    def _watchdog(self):
+        """Called from the scheduler's own thread when no engine line has run for a while."""
+        with self._wd_lock:
+            if self.failure is not None:
+                return
+            name = self.current
+            if name is None:
+                if self._orphan_since is not None and time.monotonic() - self._orphan_since > 15.0:
+                    self.failure = Deadlock({n: (x["state"], x["blocked_on"]) for n, x in self.threads.items()})
+                    self.main_evt.set()
+                return
+            t = self.threads[name]
+            if t["state"] != "ready" or not self._in_real_wait(sys._current_frames().get(t["thread"].ident)):
+                return
+            t["state"] = "blocked"
+            t["blocked_on"] = "real-wait"
+            self.real_waits += 1
+            cands = [n for n in self._runnable() if n != name]
+            if not cands:
+                self.current = None
+                self._orphan_since = time.monotonic()
+                return
+            to = self._forced_to("blocked")
+            if to is None or to not in cands:
+                to = max(cands, key=lambda x: self.prio[x]) if self.strategy["kind"] == "pct" else self.rng.choice(cands)
+            self.switches.append((self.steps, name, to, "real-wait", "blocked"))
+            self.current = to
+            self.threads[to]["evt"].set()
+
+    def _reenter(self, me):
+        """A thread that lost the baton while it was blocked in a real wait runs again: it takes the baton if
+        nobody holds it, otherwise it queues like any other ready thread."""
+        with self._wd_lock:
+            me["state"] = "ready"
+            me["blocked_on"] = None
+            if self.current is None:
+                self.current = me["name"]
+                self._orphan_since = None
+                self._forced_to("wake")
+                self.switches.append((self.steps, None, me["name"], "wake", "wake"))
+                return
+        me["evt"].wait()
+        me["evt"].clear()
+        if self.aborting:
+            self._park_forever()
 
     def _abort_all(self):
         # Parked threads stay parked (they are daemons of a process that is about to exit):
@@ -243,6 +342,11 @@ class Sched:
     # ------------------------------------------------------------ baton
     def _handoff(self, t, finishing=False, to=None, where=""):
         """Give the baton to another runnable thread (chosen by the strategy unless `to`)."""
+        if finishing and self.current != t["name"]:
+            # finished without ever getting the baton back after a real wait: nothing to hand over
+            if all(x["state"] == "done" for x in self.threads.values()):
+                self.main_evt.set()
+            return
         cands = [n for n in self._runnable() if n != t["name"]]
         if not cands:
             if all(x["state"] == "done" for x in self.threads.values()):
@@ -250,6 +354,17 @@ class Sched:
                 return
             if t["state"] == "ready":
                 return          # nobody else can run: keep going
+            if any(x["state"] == "blocked" and x["blocked_on"] == "real-wait" for x in self.threads.values()):
+                # the only threads left are waiting for something real (which this thread may just have provided)
+                with self._wd_lock:
+                    self.current = None
+                    self._orphan_since = time.monotonic()
+                if not finishing:
+                    t["evt"].wait()
+                    t["evt"].clear()
+                    if self.aborting:
+                        self._park_forever()
+                return
             self.failure = Deadlock({n: (x["state"], x["blocked_on"]) for n, x in self.threads.items()})
             self.main_evt.set()
             if not finishing:
@@ -309,13 +424,15 @@ class Sched:
         return self._local
 
     def _point(self, frame, is_shared, opcode=False, phase=False):
-        self.steps += 1
         me = self.threads.get(threading.current_thread().name)
         if me is None:
             return
-        me["steps"] += 1
         if self.aborting:
             self._park_forever()
+        if self.current != me["name"]:
+            self._reenter(me)      # woke up from a real wait without the baton: no step is counted before it has it
+        self.steps += 1
+        me["steps"] += 1
         if self.steps > self.max_steps:
             self.failure = StepCap("step cap %d exceeded" % self.max_steps)
             self.main_evt.set()
